@@ -214,7 +214,7 @@ def serialise(g, rng, base_name="Opc.Ua.NodeSet2.xml", placement=None, file_name
     return out
 
 # ---------------------------------------------------------------------------------------------- enumerations (C11, C16, C17)
-def add_enums(g, rng, n_types=None, n_vars=None, flavours=None, kinds=None, placeholder=None):
+def add_enums(g, rng, n_types=None, n_vars=None, flavours=None, kinds=None, placeholder=None, value_names=None):
     """adds the Enumeration data type to the base namespace, enum types (EnumStrings / EnumValues / no definition) and enum-typed variables.
        returns a description used by the oracles: dict(types={key: (flavour, mapping or None, name)}, vars={key: (type key, kind, value)})"""
     from opcua_tools import ua_data_types as T
@@ -247,11 +247,12 @@ def add_enums(g, rng, n_types=None, n_vars=None, flavours=None, kinds=None, plac
             g.nodes[pk] = dict(cls="UAVariable", bname=(UA, "EnumStrings"), display="EnumStrings", desc=None, attrs={"DataType": (UA, "i", "21"), "ValueRank": "1"}, value=val); g.order.append(pk)
             g.refs.append((tk, pk, (UA, "i", "46")))
         elif flavour == "values":
-            pairs = [(rng.choice([0, 1, 2, 5, 10, 100]) + 7 * j, rng.choice(["Low", "High", "Mid"]) + str(j)) for j in range(rng.randint(1, 3))]
+            pairs = [(rng.choice([0, 1, 2, 5, 10, 100]) + 7 * j, rng.choice(["Low", "High", "Mid", "\u00b0C", "m\u00b2 & <x>", "\u00b5"]) + str(j)) for j in range(rng.randint(1, 3))]
+            if value_names: pairs = [(3 + 7 * j, nm) for j, nm in enumerate(value_names)]      # display names fixed by the caller
             mapping = dict(pairs)
             pk = (uri, "i", str(3100 + i))
             items = tuple(T.UAExtensionObject(type_nodeid=T.UANodeId(0, "i", "7616"),
-                          body=T.UAXMLElement('<EnumValueType xmlns="http://opcfoundation.org/UA/2008/02/Types.xsd"><Value>%d</Value><DisplayName><Text>%s</Text></DisplayName></EnumValueType>' % (v, t))) for v, t in pairs)
+                          body=T.UAXMLElement('<EnumValueType xmlns="http://opcfoundation.org/UA/2008/02/Types.xsd"><Value>%d</Value><DisplayName><Text>%s</Text></DisplayName></EnumValueType>' % (v, t.replace("&", "&amp;").replace("<", "&lt;").replace(">", "&gt;")))) for v, t in pairs)
             val = T.UAListOf(items, "ExtensionObject")
             g.nodes[pk] = dict(cls="UAVariable", bname=(UA, "EnumValues"), display="EnumValues", desc=None, attrs={"DataType": (UA, "i", "24"), "ValueRank": "1"}, value=val); g.order.append(pk)
             g.refs.append((tk, pk, (UA, "i", "46")))
